@@ -20,4 +20,6 @@ def jobs(tier, ws):
                           'symbol_map': 'i,new_id_PNCList::1::i'}]))
     js.append(Job('C17/del_from_PNCList', 'C17', FILE_C, 'C17_idtable.c', enforce='file.c::del_from_PNCList',
                   defines=['-DH_del_id'], canaries=['ok'], unwind=3, kind='proof', include_tus=INC, solver=['--arrays-uf-always']))
+    import C03
+    js.append(C03.create_job('C17'))   # F26: a create that fails after MPI_File_open keeps no file handle
     return js
